@@ -952,6 +952,17 @@ func fileMatrix(out *bufio.Writer, r *rng, sch *crypto.Scheme, umasks []int) {
 			if err := ks.SaveKeyPair(pair); err != nil {
 				return "err:SaveKeyPair(3):" + err.Error()
 			}
+			// failure path of key.Save: the daemon logs the returned error verbatim ("Error performing DKG key
+			// transition", err), so the error text is log output and must not carry the value being saved
+			missing := path.Join(root, "no-such-dir", "x", "dist_key.private")
+			for _, secure := range []bool{true, false} {
+				if err := key.Save(missing, sh, secure); err != nil {
+					l.outBlob("log:node", node, []byte("Error performing DKG key transition err="+err.Error()))
+				}
+				if err := key.Save(missing, pair, secure); err != nil {
+					l.outBlob("log:node", node, []byte("saving identity err="+err.Error()))
+				}
+			}
 			l.dumpFiles(root, node, um)
 			return "ok"
 		})
